@@ -294,7 +294,27 @@ DICT_METHODS = {"get": d_get, "pop": d_pop, "update": d_update, "setdefault": d_
 
 
 # ---------------------------------------------------------------- deque
+def q_open_nonempty(interp, q):
+    """open deque: does the unknown front part hold a chunk?  If not, the deque becomes closed."""
+    seq, cnt = q.rest
+    if interp.ctx.branch(cnt > 0):
+        return True
+    interp.ctx.assume(seq == EMPTY_SEQ)
+    q.rest = None
+    return False
+
+
 def q_popleft(interp, q):
+    if q.rest is not None and q_open_nonempty(interp, q):
+        ctx = interp.ctx
+        seq, cnt = q.rest
+        n = ctx.fresh_int("chunklen", 0)
+        x = ctx.fresh_seq("chunk")
+        r = ctx.fresh_seq("chunks")
+        ctx.assume(z3.Length(x) == n)
+        ctx.assume(seq == z3.Concat(x, r))
+        q.rest = ops.mk_open_rest(ctx, r, cnt - 1)
+        return BytesV([Blk(x, n, str(x), True)], "bytearray")
     if not q.items:
         interp.throw("IndexError", "pop from an empty deque")
     return q.items.pop(0)
@@ -306,8 +326,13 @@ def q_pop(interp, q):
     return q.items.pop()
 
 
-DEQUE_METHODS = {"append": lambda interp, q, v: q.items.append(v), "appendleft": lambda interp, q, v: q.items.insert(0, v),
-                 "popleft": q_popleft, "pop": q_pop, "clear": lambda interp, q: q.items.clear(),
+def q_clear(interp, q):
+    q.rest = None
+    q._items = []
+
+
+DEQUE_METHODS = {"append": lambda interp, q, v: q._items.append(v), "appendleft": lambda interp, q, v: q.items.insert(0, v),
+                 "popleft": q_popleft, "pop": q_pop, "clear": q_clear,
                  "extend": lambda interp, q, o: q.items.extend(interp.bm.iterate(interp, o)),
                  "copy": lambda interp, q: PyDeque(q.items),
                  "__len__": lambda interp, q: len(q.items)}
